@@ -642,6 +642,8 @@ COMBINATORS = {
     "std::result::Result::<T, E>::is_ok_and":   (RES, {"Ok": ("call", 1, True, None), "Err": ("const", "false")}),
     "std::result::Result::<T, E>::is_err_and":  (RES, {"Ok": ("const", "false"), "Err": ("call", 1, True, None)}),
     "core::bool::<impl bool>::then":            ("bool", {"true": ("call", 1, False, (OPT, "Some")), "false": ("unit", OPT, "None")}),
+    # `opt.filter(|x| p(x))`: the predicate gets a reference to the payload and decides between Some(payload) and None
+    "std::option::Option::<T>::filter":         (OPT, {"Some": ("filter", 1), "None": ("unit", OPT, "None")}),
     # predicates on `&self`
     "std::option::Option::<T>::is_some":        (OPT, {"Some": ("const", "true"), "None": ("const", "false")}, "byref"),
     "std::option::Option::<T>::is_none":        (OPT, {"Some": ("const", "false"), "None": ("const", "true")}, "byref"),
@@ -674,8 +676,10 @@ def desugar_combinators(raw, originals, stats=None, owner=None):
         callees = {}
         ok = True
         for arm in arms.values():
-            if arm[0] != "call":
+            if arm[0] not in ("call", "filter"):
                 continue
+            if arm[0] == "filter":
+                arm = ("call", arm[1], True, None)
             idx = arm[1]
             if idx >= len(t["args"]):
                 ok = False
@@ -712,7 +716,31 @@ def desugar_combinators(raw, originals, stats=None, owner=None):
         for vname, arm in arms.items():
             payload = None if adt == "bool" else mv(sv, ["d:%d:%s" % (_VIDX[(adt, vname)], vname), "f:0:0"])
             kind = arm[0]
-            if kind == "call":
+            if kind == "filter":
+                c = callees[arm[1]]
+                pref = new_local("&<payload>")
+                verdict = new_local("bool")
+                KEEP = len(blocks)
+                blocks.append(blk([wrap_into(dest, payload, (OPT, "Some"))], {"l": ln, "k": "goto", "target": T}))
+                DROP = len(blocks)
+                blocks.append(blk([asg(dest, {"k": "agg", "kind": "adt", "adt": OPT, "variant": "None", "vidx": 0, "fields": [], "ops": []})], {"l": ln, "k": "goto", "target": T}))
+                SW = len(blocks)
+                blocks.append(blk([], {"l": ln, "k": "switch", "discr": {"k": "copy", "p": [verdict, []]}, "dty": "bool", "targets": [["0", DROP]], "otherwise": KEEP, "desugared": d}))
+                refst = asg([pref, []], {"k": "ref", "mut": False, "p": [sv, ["d:1:Some", "f:0:0"]]})
+                if c[0] == "closure":
+                    RET0 = len(blocks)
+                    blocks.append(None)
+                    entry, lb, pro = splice_closure(raw, c[1], c[2], [mv(pref)], RET0, ln)
+                    blocks[RET0] = blk([asg([verdict, []], {"k": "use", "op": mv(lb)})], {"l": ln, "k": "goto", "target": SW})
+                    A = len(blocks)
+                    blocks.append(blk([refst] + pro, {"l": ln, "k": "goto", "target": entry}))
+                    if stats is not None:
+                        stats.append((owner or raw.get("id"), c[1].id))
+                else:
+                    A = len(blocks)
+                    blocks.append(blk([refst], {"l": ln, "k": "call", "synthetic": True, "func": c[1], "args": [mv(pref)], "dest": [verdict, []], "target": SW}))
+                arm_entry[vname] = A
+            elif kind == "call":
                 idx, with_payload, wrap = arm[1], arm[2], arm[3]
                 tmp = new_local("<result of closure>")
                 RET = len(blocks)
